@@ -171,6 +171,13 @@ class TypeState:
                 return v == NONE
             if isinstance(t.ops[0], ast.IsNot):
                 return v != NONE
+        if isinstance(t, ast.Compare) and len(t.ops) == 1 and isinstance(t.ops[0], (ast.Eq, ast.NotEq)) and isinstance(t.comparators[0], ast.Constant) and isinstance(t.comparators[0].value, str) and isinstance(t.left, ast.Attribute) and isinstance(t.left.value, ast.Attribute) and isinstance(t.left.value.value, ast.Name) and t.left.value.value.id == "self" and t.left.value.attr == self.mo_field:
+            # `self.mo.kind == "generalized"`: the orbitals of this abstraction are restricted / unrestricted ones
+            # (with or without occupations); generalized orbitals are decided by the evaluated getter / setter rows
+            self.generic_truth = True
+            is_gen = t.comparators[0].value == "generalized"
+            eq = not is_gen if t.left.attr == "kind" else False
+            return eq if isinstance(t.ops[0], ast.Eq) else (not eq)
         if isinstance(t, (ast.Name, ast.Attribute)):
             # truth value of a field: None is false; a set value is taken as generic (non-zero) -- the zero case is a
             # question about values, decided by the arithmetic rule on symbols and zero, not by this None/set typestate
